@@ -11,7 +11,9 @@ CLAIMED = {
         text="Bounded symbolic execution of the real rule code with z3: for every skeleton in the stated families, every "
              "node and every rule-option, every payload-dependent branch is decided by the solver and the final query "
              "'exists payloads and an assignment with before != after on the common domain' must be unsat. Holds for all "
-             "real-valued payloads/assignments inside the tree-size bound; nothing is claimed beyond it.",
+             "real-valued payloads/assignments inside the tree-size bound; nothing is claimed beyond it. Also every 2-step "
+             "sequence of (rule-option, node) choices on rule instances that live for the whole sequence (stale state between "
+             "calls), judged for value only.",
         note="Trusts z3 (nlsat), the proxy model of Python numbers (floats as exact reals), the numpy/math stubs listed in "
              "the evidence, and the independent evaluator vf/zeval.py. Counterexamples are replayed on the unstubbed code "
              "with exact rational arithmetic before being reported.",
@@ -29,7 +31,8 @@ CLAIMED = {
         text="Bounded symbolic execution of can_apply_to/apply_to/find_node/find_nodes on trees with solver-variable payloads: "
              "on every feasible path a positive can_apply_to is followed by an apply_to that returns an expression, a deep "
              "snapshot shows can_apply_to changed nothing, a second call answers the same, and the node search equals the "
-             "in-order list filtered by can_apply_to with exact r_index values.",
+             "in-order list filtered by can_apply_to with exact r_index values. 'The same answer for the same tree' is also "
+             "asked across an in-place rewrite by another rule, against the same tree built anew and a new rule instance.",
         note="Trusts z3 for branch feasibility and the proxy/stub model; problems are re-run on concrete payloads without "
              "stubs before being reported. can_apply_to raising is recorded in the evidence, not judged.",
         tech="path-forking symbolic execution of the Python source with z3-decided branches (bounded tree size)",
